@@ -290,6 +290,7 @@ func init() {
 
 	g4 := DefaultGen
 	g4.MaxTrees, g4.MaxEntries, g4.MaxCommits, g4.NameStyle = 14, 6, 5, 1
+	g4.LongNames = true
 	registerNumeric(&numericSpec{prop: "C04", fields: CheckoutFields, gen: g4, feed: true,
 		inv: InvOpts{RefOpts: true, Roots: true, CwdKinds: []string{"top"}},
 		nontrivial: func(w *World, ex *Expected, sel *Selection) bool {
